@@ -177,6 +177,37 @@ def helper_reach(meta, path, pid):
     return seen
 
 
+def global_reach(results, pid):
+    """helper_reach over ALL units of the property at once: a function carrying an obligation of `pid` in one unit may call a helper that is
+    only a stub there and whose body (and contract failure) lives in another unit; the call edges of every generated file are merged by
+    short name before the reachability closure."""
+    calls = {}
+    carries = set()
+    short = lambda q: q.split('::')[-1]
+    for un, r in results.items():
+        if r.get('status') != 'ok':
+            continue
+        meta = r['meta']
+        lines = open(r['path']).read().split('\n')
+        fns = meta['functions']
+        names = {short(f[0]) for f in fns}
+        for q, l0, l1 in fns:
+            body = '\n'.join(lines[l0 - 1:l1])
+            calls.setdefault(short(q), set()).update(n for n in set(re.findall(r'\b([A-Za-z_]\w*)\s*\(', body)) if n in names and n != short(q))
+            ov = meta['overlays'].get(q, {})
+            if pid in ov.get('props', []) or any(pid in tag_props(t) for ln, ts in meta['tags'].items() if l0 <= int(ln) <= l1 for t in ts):
+                carries.add(short(q))
+    seen = set()
+    todo = list(carries)
+    while todo:
+        f = todo.pop()
+        for g in calls.get(f, ()):
+            if g not in seen:
+                seen.add(g)
+                todo.append(g)
+    return seen
+
+
 def assumption_scan(path):
     txt = open(path).read()
     found = []
@@ -290,7 +321,7 @@ def main(argv):
             if ov and ov[0] in meta.get('imprecise', {}):
                 # unsupported construct (accepted by Verus but encoded imprecisely): a failure here says nothing about the code
                 if pid in ov[1].get('props', []) or any(t and pid in tag_props(t) for t, _ in ov[1]['ensures']) \
-                        or (fn and fn.split('::')[-1] in reach.setdefault(un, helper_reach(meta, r['path'], pid))):
+                        or (fn and fn.split('::')[-1] in reach.setdefault('*', global_reach(results, pid))):
                     undecided.append('%s: %s contains %s; %s failed there and is not trusted' % (un, fn, meta['imprecise'][ov[0]], ','.join(d['tags']) or d['kind']))
                 continue
             if d['kind'] == 'resource':
@@ -317,12 +348,16 @@ def main(argv):
                                                    or any(pid in tag_props(t) for ln, ts in meta['tags'].items() for t in ts if fn_range(meta, ov[0], int(ln)))):
                     undecided.append('%s: clause %s (of another property) failed inside %s; the %s obligations of that function were proved assuming it, '
                                      'so they are not decided' % (un, ','.join(d['tags']), fn, pid))
-                elif fn and fn.split('::')[-1] in reach.setdefault(un, helper_reach(meta, r['path'], pid)):
+                elif fn and fn.split('::')[-1] in reach.setdefault('*', global_reach(results, pid)):
                     # (a failed POSTCONDITION of a callee counts here too: its callers were verified against it)
                     undecided.append('%s: clause %s (of another property) failed inside %s, which functions carrying %s obligations call: they were '
                                      'verified against its contract, so they are not decided' % (un, ','.join(d['tags']), fn, pid))
                 continue
             # untagged failure
+            if ov and pid in ov[1].get('props', []) and d['kind'] in ('overflow', 'bounds', 'div0', 'pre') and not d.get('user_pre') \
+                    and ov[0] in meta.get('unspec_loops', []):
+                undecided.append('%s: %s contains a loop the overlay has no invariant for; %s (%s) there cannot be decided without one' % (un, fn, d['msg'], d['kind']))
+                continue
             if ov and pid in ov[1].get('props', []) and d['kind'] in ('overflow', 'bounds', 'div0', 'pre') and not d.get('user_pre'):
                 t = '%s.%s.%s.panic_free' % (pid, un, ov[0].replace('::', '.'))
                 obligations[t]['status'] = 'failed'
@@ -332,7 +367,7 @@ def main(argv):
             if ov and (pid in ov[1].get('props', []) or any(t and pid in tag_props(t) for t, _ in ov[1]['ensures'])):
                 undecided.append('%s: untagged proof step failed in %s (%s at gen line %s): the proof needs repair; '
                                  'obligations of this function are not decided' % (un, fn, d['msg'], d['spans'][0]['l0'] if d['spans'] else '?'))
-            elif fn and fn.split('::')[-1] in reach.setdefault(un, helper_reach(meta, r['path'], pid)):
+            elif fn and fn.split('::')[-1] in reach.setdefault('*', global_reach(results, pid)):
                 # a helper whose (untagged) contract is what callers carrying this property were verified against
                 undecided.append('%s: the contract of helper %s no longer verifies (%s at gen line %s); functions carrying %s obligations '
                                  'call it and were checked against that contract, so they are not decided' % (un, fn, d['msg'], d['spans'][0]['l0'] if d['spans'] else '?', pid))
